@@ -67,7 +67,7 @@ def _cases(draw, dmax):
             ks = list(draw(st.permutations(ks)))
         b = {"cls": "derived", "keys": ks, "vals": draw(S.frac_values(len(ks)))}
     return {"cfg": cfg, "op": draw(st.sampled_from(OPS)), "a": a, "b": b, "rel": rel,
-            "mode": draw(st.sampled_from(["generic", "generic", "frac"])), "cse": draw(st.booleans())}
+            "mode": draw(st.sampled_from(["generic", "generic", "frac", "typed"])), "cse": draw(st.booleans())}
 
 
 def cases(tier):
@@ -97,6 +97,8 @@ def enumerate_cases(tier):
 def _values(opnd, mode, prefix):
     if mode == "generic" or opnd.get("vals") is None:
         return [Q.var(f"{prefix}{k}") for k in opnd["keys"]]
+    if mode == "typed" and opnd.get("tvals"):
+        return S.decode_typed(opnd["tvals"])
     return [frac(v) for v in opnd["vals"]]
 
 
